@@ -491,4 +491,142 @@ measures the two-byte string with strlen -/
 def printCOrig (v : BitVec 32) (width precision : Int) (ops : Ops) : Option (List Char × Int) :=
   printS [Char.ofNat (v.toNat % 256), NUL] width precision { ops with chr := false }
 
+/-! ### round 3: the `n` conversion and the C `int` range
+
+`printf` above answers `unsupported` for `%n` and computes width, precision and
+`pc` in unbounded `Int`.  `printfN` is the same engine (every conversion except
+`n` goes through `directive`, unchanged) with
+  * `case 'n':` transcribed: the count so far is stored through the pointer
+    argument, converted to the type the length modifier names;
+  * every place where the C code computes a value of type `int` that the
+    unbounded model could carry out of the range of `int` guarded: `atoi` of a
+    literal width/precision beyond INT_MAX (undefined, 7.22.1), `width = -width`
+    for INT_MIN, `pc` growing beyond INT_MAX.  The result is then `intovf`
+    ("undefined behaviour in C: the model says nothing about the code"). -/
+
+def INT_MAX : Int := 2147483647
+
+/-- `*va_arg(args, T *) = (T)pc;` -/
+structure NStore where
+  addr : BitVec 64   -- the pointer argument
+  size : Nat         -- sizeof(T)
+  pc : Int           -- the value of `pc` that is converted and stored
+  emitted : Nat      -- (ghost) number of characters handed to the callback so far
+  deriving DecidableEq, Repr
+
+/-- the object representation that is stored: `(T)pc` as an unsigned number of `size` bytes -/
+def NStore.val (s : NStore) : Nat := (s.pc % ((2 : Int) ^ (8 * s.size))).toNat
+
+/-- `sizeof(T)` of `case 'n':` — `signed char`, `short`, `long`, `long long`,
+`intmax_t`, `size_t`, `ptrdiff_t`, else (`int`; also for `L`) -/
+def nSize : Len → Nat
+  | .hh => 1
+  | .h => 2
+  | .l | .ll | .j | .z | .t => 8
+  | .none | .bigL => 4
+
+inductive OutcomeN
+  | done (out : List Char) (pc : Int) (stores : List NStore)
+  | fault | badarg | unsupported | diverged
+  | intovf   -- a computation in `int` left the range of `int` (undefined in C)
+  deriving DecidableEq, Repr
+
+inductive StepN
+  | ok (emit : List Char) (pc : Int) (rest : List Char) (args : List Arg) (store : Option (BitVec 64 × Nat))
+  | fault | badarg | unsupported | intovf
+  deriving DecidableEq, Repr
+
+/-- flags, width, precision, length: the first half of `directive`; result:
+width, precision, position of `format`, arguments left, `ops` -/
+def parseOpts (begin : List Char) (args : List Arg) : Option (Int × Int × List Char × List Arg × Ops) :=
+  let (s, ops) := flagsLoop begin.tail {}
+  match getWidth s args ops with
+  | none => none
+  | some (width, s, args, ops) =>
+    match getPrec s args ops with
+    | none => none
+    | some (precision, s, args, ops) =>
+      let (s, ops) := getLen s ops
+      some (width, precision, s, args, ops)
+
+/-- the value `width` receives before `if (width < 0)`: `va_arg(args, int)` or `atoi(format)` -/
+def rawWidth (s : List Char) (args : List Arg) : Option Int :=
+  if hd s = '*' then (vaInt args).map fun (v, _) => v.toInt else some (atoi s)
+
+/-- the value `atoi(format)` yields for a literal precision (`none`: the precision is a `*`) -/
+def rawPrec (s : List Char) : Option Int :=
+  if hd s = '.' then (if hd s.tail = '*' then none else some (atoi s.tail)) else some (atoi s)
+
+/-- does this directive make the C code compute outside `int`?  `atoi` beyond
+the range of `int`; `width = -width` for INT_MIN -/
+def intGuard (begin : List Char) (args : List Arg) : Bool :=
+  let (s, ops) := flagsLoop begin.tail {}
+  (match rawWidth s args with
+   | some w => decide (w > INT_MAX ∨ w ≤ -INT_MAX - 1)
+   | none => false) ||
+  (match getWidth s args ops with
+   | some (_, s, _, _) =>
+     (match rawPrec s with
+      | some p => decide (p > INT_MAX ∨ p < -INT_MAX - 1)
+      | none => false)
+   | none => false)
+
+/-- the body of the `for` loop for `*format == '%'`, `pc` = the count so far -/
+def directiveN (begin : List Char) (args : List Arg) : StepN :=
+  if intGuard begin args then .intovf else
+  match parseOpts begin args with
+  | none => .badarg
+  | some (_, _, s, args', ops) =>
+    if hd s = 'n' then
+      -- case 'n': if (ops & OPS_LEN_MIN) *va_arg(args, signed char *) = (signed char)pc; else if … else *va_arg(args, int *) = pc;
+      match args' with
+      | .ptr a :: as => .ok [] 0 s.tail as (some (a, nSize ops.len))
+      | _ => .badarg
+    else
+      match directive begin args with
+      | .ok emit dpc rest as => .ok emit dpc rest as none
+      | .fault => .fault
+      | .badarg => .badarg
+      | .unsupported => .unsupported
+
+/-- `for (begin = format; *format; begin = ++format) { … }` with `pc` an `int` -/
+def loopN : Nat → List Char → List Arg → List Char → Int → List NStore → OutcomeN
+  | _, [], _, out, pc, st => .done out pc st
+  | 0, _ :: _, _, _, _, _ => .diverged
+  | fuel + 1, c :: cs, args, out, pc, st =>
+    if c = NUL then .done out pc st
+    else if c ≠ '%' then
+      -- single_print: ++pc;
+      if pc + 1 > INT_MAX then .intovf else loopN fuel cs args (out ++ [c]) (pc + 1) st
+    else
+      match directiveN (c :: cs) args with
+      | .ok emit dpc rest args store =>
+        -- pc += print_i(…) / print_s(…) / (int)(format - begin + 1)
+        if pc + dpc > INT_MAX then .intovf else
+        loopN fuel rest args (out ++ emit) (pc + dpc)
+          (match store with
+           | some (a, sz) => st ++ [{ addr := a, size := sz, pc := pc, emitted := out.length }]
+           | none => st)
+      | .fault => .fault
+      | .badarg => .badarg
+      | .unsupported => .unsupported
+      | .intovf => .intovf
+
+/-- `__printf` with `%n` and with `int` arithmetic -/
+def printfN (format : List Char) (args : List Arg) : OutcomeN :=
+  loopN (format.length + 1) format args [] 0 []
+
+/-- the wrappers of sprintf.c on top of `printfN` (the `%n` stores happen inside `__printf`) -/
+def vsnprintfN (mem : List Char) (n : Nat) (format : List Char) (args : List Arg) :
+    Option (List Char × Int × List NStore) :=
+  match printfN format args with
+  | .done out pc st =>
+    match out.foldl snPut (some { mem := mem, cursor := 0, room := if n ≠ 0 then n - 1 else 0 }) with
+    | none => none
+    | some d =>
+      if n ≠ 0 then
+        if d.cursor < d.mem.length then some (d.mem.set d.cursor NUL, pc, st) else none
+      else some (d.mem, pc, st)
+  | _ => none
+
 end Igris.C06
